@@ -16,6 +16,7 @@ client i starts at address i, the server is address 1000.
   rd <ep>                            drain the reader (past deadline)             -> id,id,… eof|to
   probe <ep>                         WriteMsg of 1 byte; destination of the datagram       -> dst=<addr> | err
   close <ep>                         local Close                                           -> ok
+  cwr <ep> <writers> <each>          that many goroutines call WriteMsg concurrently        -> ok n=<packets>
   scan                               search every datagram emitted so far for application data,
                                      the server name, certificate keys/signatures  -> clean | leak
 
@@ -189,6 +190,16 @@ def step (why : Bool) (w0 : World) (ws : List String) : World × String :=
       | some e => (w.set r { e with closed := true }, "ok")
       | none => (w, "bad-op")
     | none => (w, "bad-op")
+  | ["cwr", ep, nw, each] => match parseEp ep, nw.toNat?, each.toNat? with
+    -- concurrent writers: seals are serialised by the session lock, so the packets carry
+    -- nw·each distinct consecutive counters (`C03_counters_strict`); their order is the scheduler's
+    | some r, some nw, some each => match w.get r with
+      | some e =>
+        if nw = 0 ∨ nw > 16 ∨ each = 0 ∨ each > 64 then (w, "bad-op")
+        else if e.closed then (w, "err")
+        else (w.set r { e with txCtr := e.txCtr + nw * each }, s!"ok n={nw * each}")
+      | none => (w, "bad-op")
+    | _, _, _ => (w, "bad-op")
   | ["scan"] => (w, "clean")   -- no wire term of the model exposes a payload, name or certificate
   | _ => (w, "bad-op")
 
